@@ -45,10 +45,10 @@ theorem pmersFold_spec (bits : Nat) (u : Int) (hu0 : 0 ≤ u) (hu : 2 * u ≤ (2
       have : c + q * P = (c + q * u % P + q * u / P * P) + q * (P - u) := by linarith [mul_sub q P u]
       rw [this, Int.add_mul_emod_self_right]
 
-/-- bn_mod_pre_pmers then bn_mod_pmers for every a and m > 0: the folding loop terminates within the supplied fuel; for a ≥ 0 the result
-    is a mod m; for a < 0 it is m - ((-a) mod m), which is a mod m unless m | a (then m) -/
+/-- bn_mod_pre_pmers then bn_mod_pmers for EVERY integer a and m > 0 (code after fix 060ee71): the folding loop terminates within the
+    supplied fuel and the result is a mod m -/
 theorem modPmersFull_spec (a m : Int) (hm : 0 < m) :
-    ∃ r n, modPmersFull a m = some ((if a < 0 then m - (-a) % m else a % m), r, n) := by
+    ∃ r n, modPmersFull a m = some (a % m, r, n) := by
   have hmn : ¬ m ≤ 0 := not_le.mpr hm
   have hmt : (m.toNat : Int) = m := Int.toNat_of_nonneg hm.le
   have hmne : m.toNat ≠ 0 := by omega
@@ -90,6 +90,12 @@ theorem modPmersFull_spec (a m : Int) (hm : 0 < m) :
       rw [this, Int.add_mul_emod_self_right]
     · rfl
   rw [this]
-  split_ifs <;> rfl
+  by_cases hneg : a < 0
+  · simp only [hneg, if_true, true_and]
+    rw [neg_residue a m hm]
+    by_cases hz : (-a) % m = 0
+    · simp [hz]
+    · simp [hz]
+  · simp [hneg]
 
 end Relic.Lemmas.NtMod
